@@ -43,7 +43,8 @@ FAULTS = ["forcing_ends_early", "forcing_starts_late", "forcing_starts_late_subs
           "missing_tracker_section", "missing_time_section", "missing_release_section", "missing_output_section", "missing_forcing_section",
           "subgrid_i0_lt_1", "subgrid_i1_gt_max", "subgrid_i0_ge_i1", "subgrid_j0_lt_1", "subgrid_j1_gt_max", "subgrid_j0_ge_j1", "subgrid_i0_eq_i1",
           "subgrid_i0_far_negative", "subgrid_j0_far_negative", "subgrid_negative_i1_le_i0", "subgrid_negative_j1_le_j0", "subgrid_i1_minus_imax",
-          "v1_missing_grid_file", "v1_missing_forcing_file", "warm_start_stop_not_after_restart_time"]
+          "v1_missing_grid_file", "v1_missing_forcing_file", "warm_start_stop_not_after_restart_time",
+          "last_frame_duplicated", "last_frame_steps_back", "continuous_release_without_a_tick_in_the_window"]
 
 
 def bases(tier: str, seed: int) -> list[dict[str, Any]]:
@@ -118,6 +119,12 @@ def base_files(b: dict[str, Any], wd: Path, fault: str | None):
         k = len(phys) // 2
         phys = phys[k:] + phys[:k]
         files = [len(phys) - k, k]
+    elif fault == "last_frame_duplicated":  # the very last frame of the forcing (in simulation order, beyond the end of the window) written twice
+        phys = phys + [phys[-1]] if not rev else [phys[0]] + phys
+        files = (files[:-1] + [files[-1] + 1]) if not rev else ([files[0] + 1] + files[1:])
+    elif fault == "last_frame_steps_back":  # ... or followed by a frame that steps back in time (still beyond the end of the window)
+        phys = phys + [phys[-1] - 0.25] if not rev else [phys[0] + 0.25] + phys
+        files = (files[:-1] + [files[-1] + 1]) if not rev else ([files[0] + 1] + files[1:])
     elif fault == "frame_duplicated_across_files":
         k = len(phys) // 2
         phys = phys[:k] + [phys[k - 1]] + phys[k:]
@@ -136,6 +143,8 @@ def base_files(b: dict[str, Any], wd: Path, fault: str | None):
         steps = [ns]
     elif fault == "releases_all_after_stop":
         steps = [ns + 1, ns + 3]
+    elif fault == "continuous_release_without_a_tick_in_the_window":  # one entry a step before the start, repeated less often than the run is long
+        steps = [-1]
     elif fault == "releases_straddle_window":  # rows before the start and at/after the stop, none inside
         steps = [-2, -1, ns, ns + 2]
     cols = ["release_time", "X", "Y", "Z"]
@@ -152,6 +161,8 @@ def base_files(b: dict[str, Any], wd: Path, fault: str | None):
     rel = dict(columns=cols, rows=rows, header=True)
     if b["cont"]:
         rel.update(continuous=True, freq=b["freq"] * dt)
+    if fault == "continuous_release_without_a_tick_in_the_window":
+        rel.update(continuous=True, freq=(ns + 4) * dt)
     run = dict(start=start, stop=stop, dt=dt, reversed=rev, advection="EF", release=rel, output=dict(period=dt))
     if b["id"] % 2 and not (fault or "").startswith("subgrid"):
         run["subgrid"] = [2, -2, 1, -1]  # legal: negative limits count from the far edge
@@ -245,7 +256,7 @@ def one_run(b: dict[str, Any], fault: str | None, wd: Path, sub: bool):
         cf = wd / "no_such_config.yaml"
     # --- verify the fault is really in what ladim will read
     present = v1_valid_runs
-    if fault in ("frames_unsorted_in_file", "frames_unsorted_across_files", "frame_duplicated_across_files", "forcing_ends_early", "forcing_starts_late",
+    if fault in ("last_frame_duplicated", "last_frame_steps_back", "frames_unsorted_in_file", "frames_unsorted_across_files", "frame_duplicated_across_files", "forcing_ends_early", "forcing_starts_late",
                  "forcing_starts_late_substep", "forcing_ends_early_substep"):
         ts = []
         for fn in world["files"]:
@@ -254,7 +265,11 @@ def one_run(b: dict[str, Any], fault: str | None, wd: Path, sub: bool):
                 div_ = {"seconds": 1.0, "hours": 3600.0, "days": 86400.0}[tu_.split()[0]]
                 ref_ = (np.datetime64(tu_.split("since")[1].strip().replace(" ", "T"), "s") - np.datetime64("1970-01-01T00:00:00", "s")) / np.timedelta64(1, "s")
                 ts += [float(np.round(float(x) * div_ + ref_, 3)) for x in nc.variables["ocean_time"][:]]
-        if fault.startswith("frames_unsorted"):
+        if fault == "last_frame_duplicated":
+            present = ts[-1] == ts[-2] if not b["reversed"] else ts[0] == ts[1]
+        elif fault == "last_frame_steps_back":
+            present = ts[-1] < ts[-2] if not b["reversed"] else ts[0] > ts[1]
+        elif fault.startswith("frames_unsorted"):
             present = any(b2 < a for a, b2 in zip(ts, ts[1:]))
         elif fault == "frame_duplicated_across_files":
             present = any(b2 == a for a, b2 in zip(ts, ts[1:]))
